@@ -48,6 +48,7 @@ GATES = {
     "negatives-per-kind": ["negkind:" + k for k in KINDS],
     "op-contracts-ran": ["op_checksig", "op_checkmultisig", "op_checksig_schnorr", "op_checksigadd_schnorr"],
     "evaluate-rules": ["rule:p2sh", "rule:p2wpkh", "rule:p2wsh", "rule:p2tr-key", "rule:p2tr-script"],
+    "in-place-histories": ["history:in-place-edit-then-verify"],
 }
 
 
@@ -318,7 +319,10 @@ def build_signed(rng, kind, small):
         tx = finish(internal.p2tr_script(tree.hash()))
         cb = tree.control_block(internal, leaf)
         tx.initialize_p2tr_multisig(index, cb, leaf.tap_script)
-        sigs = [tx.get_sig_taproot(index, ks[j], ext_flag=1) if j in signers else b"" for j in range(n)]
+        # every signer picks its own sighash flag (64-byte DEFAULT and 65-byte explicit types mixed)
+        flags = [rng.choice([0, 0, 1, 0x81, 2] + ([3] if index < n_out else [])) for _ in range(n)]
+        meta["flags"] = flags
+        sigs = [tx.get_sig_taproot(index, ks[j], ext_flag=1, hash_type=flags[j]) if j in signers else b"" for j in range(n)]
         if kind == "p2tr-ms-multi":
             sigs = [s for s in sigs if s]
         ok = tx.finalize_p2tr_multisig(index, sigs)
@@ -526,7 +530,9 @@ def mutations(rng, model, spent, index, meta):
     # scriptSig games
     if kind in ("p2sh-ms", "p2sh-p2wpkh", "p2sh-p2wsh-ms"):
         redeem = ss_cmds(model, index)[-1]
-        variants = [[redeem], [0x51, redeem], [rng.randbytes(5), redeem], [0, redeem], [0x51, 0x51, redeem], [redeem, 0x51], [0x51, 0x75, 0x51, redeem], [b"\x01", redeem]]
+        variants = [[redeem], [0x51, redeem], [rng.randbytes(5), redeem], [0, redeem], [0x51, 0x51, redeem], [redeem, 0x51], [0x51, 0x75, 0x51, redeem], [b"\x01", redeem],
+                    # non-push opcodes after the redeem script (BIP16: a P2SH scriptSig is push-only and its last push is the script)
+                    [redeem, 0x61], [redeem, 0x61, 0x61], [0, redeem, 0x61], [redeem, 0x76, 0x75], [redeem, 0xB0], [0x51, redeem, 0x61]]
         for v in variants:
             m, s = fresh(); set_ss(m, index, v)  # noqa: E702
             if kind != "p2sh-ms":
@@ -580,6 +586,62 @@ def judge_negative(ctx, cls, kind, model, spent, index):
     ctx.case((tc.encode(model), [(s["amount"], s["script"]) for s in spent], index), cls=None)
 
 
+def in_place_history(ctx, rng, tx, index, spent, kind):
+    """History on the signed Tx OBJECT itself (not a rebuilt copy): verify, edit a committed field in place,
+    verify again.  The second answer must follow the transaction as it is now (a digest midstate remembered
+    from signing or from the first verification must not make an invalidated signature look valid)."""
+    from buidl.timelock import Locktime, Sequence
+
+    taproot_or_segwit = kind.startswith("p2tr") or kind in ("p2wpkh", "p2sh-p2wpkh", "p2wsh-ms", "p2sh-p2wsh-ms")
+    edits = ["output-amount", "locktime", "sequence"] + (["spent-amount", "other-spent-amount"] if taproot_or_segwit else [])
+    first = outcome(tx.verify_input, index)
+    for edit in rng.sample(edits, 2):
+        undo = None
+        sp = [dict(s) for s in spent]
+        if edit == "output-amount":
+            o = tx.tx_outs[rng.randrange(len(tx.tx_outs))]
+            old = o.amount
+            o.amount = old + 1
+            undo = lambda o=o, old=old: setattr(o, "amount", old)  # noqa: E731
+        elif edit == "locktime":
+            old = tx.locktime
+            tx.locktime = Locktime(int(old) ^ 1)
+            undo = lambda old=old: setattr(tx, "locktime", old)  # noqa: E731
+        elif edit == "sequence":
+            ti = tx.tx_ins[index]
+            old = ti.sequence
+            ti.sequence = Sequence(int(old) ^ 1)
+            undo = lambda ti=ti, old=old: setattr(ti, "sequence", old)  # noqa: E731
+        elif edit == "spent-amount":
+            ti = tx.tx_ins[index]
+            old = ti._value
+            ti._value = old + 1
+            sp[index]["amount"] = old + 1
+            undo = lambda ti=ti, old=old: setattr(ti, "_value", old)  # noqa: E731
+        elif edit == "other-spent-amount":
+            if len(tx.tx_ins) < 2 or not kind.startswith("p2tr"):
+                continue  # only BIP341 commits to the other inputs' amounts
+            k = (index + 1) % len(tx.tx_ins)
+            ti = tx.tx_ins[k]
+            old = ti._value
+            ti._value = old + 1
+            sp[k]["amount"] = old + 1
+            undo = lambda ti=ti, old=old: setattr(ti, "_value", old)  # noqa: E731
+        with contracts.suspended():
+            model = model_of_tx(tx)
+        info = spend.analyse(model, sp, index)
+        o2 = outcome(tx.verify_input, index)
+        ctx.monitor("verify_input-in-place-history")
+        ctx.count("history:in-place-edit-then-verify")
+        if info["authorised"] is False and o2[0] == "ok" and o2[1]:
+            ctx.violation(f"verify-accepts-unauthorised:{kind}:in-place-{edit}", f"same Tx object verified {first}, then {edit} was edited in place and verify_input still returned True; analyser: {info['why']}",
+                          {"op": "verify", "model": model, "spent": sp, "index": index, "cls": "in-place-" + edit, "kind": kind})
+        undo()
+        o3 = outcome(tx.verify_input, index)
+        if not (o3[0] == "ok" and o3[1] is True):
+            ctx.violation(f"verify-rejects-authorised:{kind}:after-undoing-in-place-edit", f"after restoring {edit}: {o3}", {"op": "build", "kind": kind})
+
+
 def one_job(ctx, rng, kind):
     small = ctx.tier == "quick"
     o = outcome(build_signed, rng, kind, small)
@@ -606,6 +668,7 @@ def one_job(ctx, rng, kind):
     ctx.case((tc.encode(model), [(s["amount"], s["script"]) for s in spent], index))
     if len(ctx.samples) < 3:
         ctx.sample({"kind": kind, "m": meta["m"], "n": meta["n"], "tx": tc.encode(model)[:300], "index": index})
+    in_place_history(ctx, rng, tx, index, spent, kind)
     for cls, m2, s2 in mutations(rng, model, spent, index, meta):
         if ctx.out_of_time():
             return
